@@ -170,12 +170,14 @@ class Check:
         for f in self.findings:
             if self.known_hits.get(f["id"]):
                 print(f"KNOWN-FINDING: property={self.pid} {f['what']} (matched {self.known_hits[f['id']]} traces; id={f['id']})")
-        seen = set()
+        per = {}
         for why, path in self.violations:
-            if why in seen and len(seen) > 20:
-                continue
-            seen.add(why)
-            print(f"VIOLATION property={self.pid} replay={path} clause={why}")
+            per[why] = per.get(why, 0) + 1
+            if per[why] <= 3:
+                print(f"VIOLATION property={self.pid} replay={path} clause={why}")
+        for why, n in per.items():
+            if n > 3:
+                print(f"  ... {n - 3} more violations with clause={why} (replay files written)")
         print(f"{self.pid} {self.tier}: traces={self.traces} states={self.states} transitions={self.transitions} "
               f"violations={len(self.violations)} known={sum(self.known_hits.values())} wall={wall:.1f}s")
         return 1 if self.violations else 0
